@@ -77,17 +77,28 @@ impl SubscriptionTrie {
     }
 
     let final_node_r = current_node_arc.read();
-    let old_count = final_node_r.count.fetch_sub(1, Ordering::Relaxed);
-
-    if old_count > 0 {
-      tracing::debug!(topic = ?String::from_utf8_lossy(topic), new_count = old_count - 1, "Unsubscribed");
-      old_count == 1
-    } else {
-      #[cfg(rzmq_verif)]
-      crate::verif::point("trie.unsub.underflow_window");
-      final_node_r.count.fetch_add(1, Ordering::Relaxed);
-      tracing::warn!(topic = ?String::from_utf8_lossy(topic), "Unsubscribe attempt on topic with zero count");
-      false
+    // Decrement only if the count is positive. (A fetch_sub followed by a compensating fetch_add
+    // would expose usize::MAX to concurrent matches() calls and make them match spuriously.)
+    let mut current = final_node_r.count.load(Ordering::Relaxed);
+    loop {
+      if current == 0 {
+        #[cfg(rzmq_verif)]
+        crate::verif::point("trie.unsub.underflow_window");
+        tracing::warn!(topic = ?String::from_utf8_lossy(topic), "Unsubscribe attempt on topic with zero count");
+        return false;
+      }
+      match final_node_r.count.compare_exchange_weak(
+        current,
+        current - 1,
+        Ordering::Relaxed,
+        Ordering::Relaxed,
+      ) {
+        Ok(_) => {
+          tracing::debug!(topic = ?String::from_utf8_lossy(topic), new_count = current - 1, "Unsubscribed");
+          return current == 1;
+        }
+        Err(actual) => current = actual,
+      }
     }
   }
 
